@@ -541,3 +541,30 @@ func boundedClasses(li *LockInfo) map[LockClass]bool {
 	}
 	return b
 }
+
+// syncReachSkipping is syncReach that does not follow a call for which skip reports true.
+func syncReachSkipping(li *LockInfo, roots []*ssa.Function, skip func(caller *ssa.Function, in ssa.Instruction) bool) map[*ssa.Function]bool {
+	seen := map[*ssa.Function]bool{}
+	var visit func(f *ssa.Function)
+	visit = func(f *ssa.Function) {
+		if seen[f] {
+			return
+		}
+		seen[f] = true
+		eachInstr(f, func(in ssa.Instruction) {
+			if _, isGo := in.(*ssa.Go); isGo {
+				return
+			}
+			if skip != nil && skip(f, in) {
+				return
+			}
+			for _, g := range li.Callees[in] {
+				visit(g)
+			}
+		})
+	}
+	for _, f := range roots {
+		visit(f)
+	}
+	return seen
+}
